@@ -509,7 +509,8 @@ def splice_loops_and_hints(card, fid, body):
                 if done:
                     break
             if not done:
-                raise AnchorLost('%s: hint %s anchor %r lost' % (fid, hname, anchor))
+                card.lost_hints = getattr(card, 'lost_hints', []) + ['%s (anchor %r)' % (hname, anchor[:60])]
+                card.lost_for = getattr(card, 'lost_for', []) + getattr(card, 'hint_for', {}).get(hname, ['*'])
             continue
         if where in ('start', 'end'):
             mark = '\n\x00HINT:%s\x00\n' % hname
@@ -556,7 +557,10 @@ def splice_loops_and_hints(card, fid, body):
             if done:
                 break
         if not done:
-            raise AnchorLost('%s: hint %s anchor %r lost' % (fid, hname, anchor))
+            # the statement this proof step was attached to is gone: drop this step only; if the proof still goes
+            # through the function is decided as usual, otherwise it is treated as restructured
+            card.lost_hints = getattr(card, 'lost_hints', []) + ['%s (anchor %r)' % (hname, anchor[:60])]
+            card.lost_for = getattr(card, 'lost_for', []) + getattr(card, 'hint_for', {}).get(hname, ['*'])
 
     return hinted
 
@@ -634,6 +638,9 @@ def emit_fn(card, repo, out, info, twin=False, assumed_here=False):
         hinted = [['body', body]]
         card_hints_saved = card.hints
         card.hints = []
+    if degraded is None and getattr(card, 'lost_hints', None):
+        degraded = 'proof step(s) without anchor dropped: ' + ', '.join(card.lost_hints)
+        rec['lost_for'] = sorted(set(getattr(card, 'lost_for', ['*'])))
     rec['degraded'] = degraded
     if degraded:
         DEGRADED_IDS[fid] = degraded
@@ -848,7 +855,7 @@ AUTO_IMPL_HEADERS = {
 
 def find_auto(repo, tname, fname):
     """Locate `fn fname` in an inherent impl of `tname` somewhere under src/. Returns the relative file or None."""
-    if tname not in AUTO_IMPL_HEADERS:
+    if tname and tname not in AUTO_IMPL_HEADERS:
         return None
     for base, dirs, files in os.walk(os.path.join(repo, 'src')):
         dirs.sort()
@@ -858,7 +865,7 @@ def find_auto(repo, tname, fname):
             rel = os.path.relpath(os.path.join(base, f), repo)
             try:
                 src, clean = load(repo, rel)
-                find_fn(clean, tname, fname)
+                find_fn(clean, tname or None, fname)
                 return rel
             except AnchorLost:
                 continue
@@ -881,7 +888,7 @@ def build_inlinable(repo, auto):
         if rel is None:
             continue
         src, clean = load(repo, rel)
-        start, bopen, bclose = find_fn(clean, tname, fname)
+        start, bopen, bclose = find_fn(clean, tname or None, fname)
         head = clean[start:bopen]
         body = src[bopen + 1:bclose]
         cbody = clean[bopen + 1:bclose]
@@ -889,7 +896,9 @@ def build_inlinable(repo, auto):
         pi = head.index('(', fi)
         if re.search(r'\basync\b', head) or '<' in head[fi + len(fname):pi]:
             continue
-        if re.search(r'\breturn\b|\?|\.await\b|\b(loop|while|for)\b|\bSelf\b', cbody):
+        # only plain straight-line code: no early exit, no loop, no closure or iterator chain (those need rewrite rules
+        # that are keyed to the receiver type of the helper's own impl)
+        if re.search(r'\breturn\b|\?|\.await\b|\b(loop|while|for)\b|\bSelf\b|\||\.iter(_mut)?\(\)', cbody):
             continue
         pm = head[pi + 1:]
         depth = 0
@@ -903,19 +912,26 @@ def build_inlinable(repo, auto):
                     break
                 depth -= 1
         plist = [x.strip() for x in pm[:end].split(',') if x.strip()]
-        if not plist or not re.fullmatch(r'&?\s*(mut\s+)?self', plist[0]):
-            continue
+        if tname:
+            if not plist or not re.fullmatch(r'&?\s*(mut\s+)?self', plist[0]):
+                continue
+            rest = plist[1:]
+        else:
+            rest = plist
         names = []
         ok = True
-        for prm in plist[1:]:
-            mm = re.fullmatch(r'(mut\s+)?(\w+)\s*:\s*[^,]+', prm)
+        for prm in rest:
+            mm = re.fullmatch(r'(mut\s+)?(\w+)\s*:\s*([^,]+)', prm)
             if not mm:
                 ok = False
                 break
-            names.append(mm.group(2))
+            ty = mm.group(3).strip()
+            # a reference argument is re-borrowed by a call, not moved
+            mode = '&mut *' if re.match(r'&\s*(\'\w+\s+)?mut\b', ty) else ('&*' if ty.startswith('&') else '')
+            names.append((mm.group(2), mode))
         if not ok:
             continue
-        INLINABLE[fname] = (names, blank_logging(body))
+        INLINABLE[fname] = (names, blank_logging(body), bool(tname))
 
 
 def blank_logging(body):
@@ -924,8 +940,8 @@ def blank_logging(body):
 
 def inline_helpers(body, log):
     """Rule X26: `RECV.helper(ARGS)` -> `{ let __aK = ARGK; ..; BODY[self := RECV] }` for every helper of INLINABLE."""
-    for name, (params, hbody) in INLINABLE.items():
-        pat = re.compile(r'((?:\w+\.)*\w+)\.%s\(' % re.escape(name))
+    for name, (params, hbody, is_method) in INLINABLE.items():
+        pat = re.compile((r'((?:\w+\.)*\w+)\.%s\(' if is_method else r'(?<![\w\.:])()%s\(') % re.escape(name))
         pos = 0
         while True:
             m = pat.search(body, pos)
@@ -959,11 +975,11 @@ def inline_helpers(body, log):
             if len(args) != len(params):
                 pos = m.end()
                 continue
-            hb = re.sub(r'\bself\b', recv, hbody)
+            hb = re.sub(r'\bself\b', recv, hbody) if is_method else hbody
             lets = ''
-            for k_, (pn, av) in enumerate(zip(params, args)):
+            for k_, ((pn, mode), av) in enumerate(zip(params, args)):
                 hb = re.sub(r'\b%s\b' % re.escape(pn), '__a%d' % k_, hb)
-                lets += 'let __a%d = %s; ' % (k_, av)
+                lets += ('let __a%d = %s(%s); ' % (k_, mode, av)) if mode else ('let __a%d = %s; ' % (k_, av))
             rep = '{ ' + lets + hb.strip() + ' }'
             body = body[:m.start()] + rep + body[i_ + 1:]
             pos = m.start() + len(rep)
@@ -1044,9 +1060,14 @@ def generate(repo, template_paths, twin=False, only=None, auto=()):
             elif d == 'hint':
                 flush()
                 occ = 0
-                for t in toks[3:]:
+                for t in toks[2:]:
                     if t.startswith('occ='):
                         occ = int(t[4:])
+                    if t.startswith('for='):
+                        # the clauses this proof step supports: if its anchor is lost only these become undecided
+                        if not hasattr(card, 'hint_for'):
+                            card.hint_for = {}
+                        card.hint_for[toks[0]] = t[4:].split(',')
                 cur = ('hint', toks[0], toks[1], toks[2] if len(toks) > 2 else '', occ)
             elif d == 'end':
                 flush()
@@ -1069,11 +1090,13 @@ def generate(repo, template_paths, twin=False, only=None, auto=()):
         rel = find_auto(repo, tname, fname)
         if rel is None:
             continue
-        card = FnCard(rel, '%s::%s' % (tname, fname), {'id': 'auto.%s.%s' % (tname, fname), 'nospinoff': True})
+        card = FnCard(rel, ('%s::%s' % (tname, fname)) if tname else fname, {'id': 'auto.%s.%s' % (tname, fname), 'nospinoff': True})
         out.add('verus! {', None)
-        out.add(AUTO_IMPL_HEADERS[tname] + ' {', None)
+        if tname:
+            out.add(AUTO_IMPL_HEADERS[tname] + ' {', None)
         emit_fn(card, repo, out, info, twin=False, assumed_here=False)
-        out.add('}', None)
+        if tname:
+            out.add('}', None)
         out.add('} // verus!', None)
         info['functions'][-1]['auto'] = True
         auto_names.append(fname)
